@@ -859,6 +859,13 @@ func (c *Compiler) compileVariable(expr *ast.VariableExpr) error {
 
 // compileBinaryOp compiles binary operation
 func (c *Compiler) compileBinaryOp(expr *ast.BinaryOpExpr) error {
+	// && and || evaluate their right operand only when the left one does not
+	// decide the result, as the interpreter does: `x != null && x.f > 1` must
+	// not touch x.f when x is null.
+	if expr.Op == ast.And || expr.Op == ast.Or {
+		return c.compileShortCircuit(expr)
+	}
+
 	// Compile left operand
 	if err := c.compileExpression(expr.Left); err != nil {
 		return err
@@ -901,6 +908,44 @@ func (c *Compiler) compileBinaryOp(expr *ast.BinaryOpExpr) error {
 		return fmt.Errorf("unsupported binary operator: %v", expr.Op)
 	}
 
+	return nil
+}
+
+// compileShortCircuit compiles `a && b` / `a || b` with a conditional jump over
+// the right operand. The right operand, when evaluated, still goes through
+// OpAnd/OpOr (against the neutral element) so that a non-boolean is a type error.
+func (c *Compiler) compileShortCircuit(expr *ast.BinaryOpExpr) error {
+	if err := c.compileExpression(expr.Left); err != nil {
+		return err
+	}
+
+	isAnd := expr.Op == ast.And
+	skip := len(c.code)
+	if isAnd {
+		c.emitWithOperand(vm.OpJumpIfFalse, 0) // Placeholder
+	} else {
+		c.emitWithOperand(vm.OpJumpIfTrue, 0) // Placeholder
+	}
+
+	if err := c.compileExpression(expr.Right); err != nil {
+		return err
+	}
+	neutral := c.addConstant(vm.BoolValue{Val: isAnd})
+	c.emitWithOperand(vm.OpPush, uint32(neutral))
+	if isAnd {
+		c.emit(vm.OpAnd)
+	} else {
+		c.emit(vm.OpOr)
+	}
+	jumpToEnd := len(c.code)
+	c.emitWithOperand(vm.OpJump, 0) // Placeholder
+
+	// Left operand decided the result
+	c.patchJump(skip, uint32(len(c.code)))
+	decided := c.addConstant(vm.BoolValue{Val: !isAnd})
+	c.emitWithOperand(vm.OpPush, uint32(decided))
+
+	c.patchJump(jumpToEnd, uint32(len(c.code)))
 	return nil
 }
 
